@@ -499,3 +499,22 @@ VARIANTS += [
          edits=[dict(file=SIF, find=_ISE_OLD, replace="    fn is_empty(&self) -> bool {\n        self.buffered_size == 0\n    }\n\n" + _ISE_OLD),
                 dict(file=SIF, find="            None if self.buffered_size > 0 => ExtendResult::Error(", replace="            None if !self.is_empty() => ExtendResult::Error(")]),
 ]
+
+HAF = "ipa-core/src/protocol/hybrid/agg.rs"
+HMF = "ipa-core/src/protocol/hybrid/mod.rs"
+VARIANTS += [
+    # ---------------- C01 ----------------
+    dict(prop="C01", name="third-report-keeps-pair", expect="TABLE-match|add_report:Pair->MoreThanTwo",
+         edits=[dict(file=HAF, find="            Self::Pair { .. } | Self::MoreThanTwo => *self = Self::MoreThanTwo,", replace="            Self::Pair { .. } => {}\n            Self::MoreThanTwo => *self = Self::MoreThanTwo,")]),
+    dict(prop="C01", name="into-pair-accepts-single", expect="TABLE-match|into_pair:some-iff-pair",
+         edits=[dict(file=HAF, find="            Self::Pair(r1, r2) => Some([r1, r2]),\n            _ => None,", replace="            Self::Pair(r1, r2) => Some([r1, r2]),\n            Self::Single(r) => Some([r.clone(), r]),\n            Self::MoreThanTwo => None,")]),
+    dict(prop="C01", name="value-sum-uses-breakdown-key", expect="WIRE-agg|AddV",
+         edits=[dict(file=HAF, find="                    &reports[0].value.to_bits(),\n                    &reports[1].value.to_bits(),", replace="                    &reports[0].value.to_bits(),\n                    &reports[0].value.to_bits(),")]),
+    dict(prop="C01", name="aggregate-fields-swapped", expect="WIRE-agg|result-fields",
+         edits=[dict(file=HAF, find="                let (breakdown_key, _) = integer_add::<_, EightBitStep, 1>(\n                    agg_ctx.narrow(&AggregateReportsStep::AddBK),", replace="                let (value, _) = integer_add::<_, EightBitStep, 1>(\n                    agg_ctx.narrow(&AggregateReportsStep::AddBK),"),
+                dict(file=HAF, find="                let (value, _) = integer_add::<_, EightBitStep, 1>(\n                    agg_ctx.narrow(&AggregateReportsStep::AddV),", replace="                let (breakdown_key, _) = integer_add::<_, EightBitStep, 1>(\n                    agg_ctx.narrow(&AggregateReportsStep::AddV),")]),
+    dict(prop="C01", name="second-early-return", expect="COLLECTIVE|ok-return-skips-prf+reshard",
+         edits=[dict(file=HMF, find="    let sharded_reports = compute_prf_and_reshard(ctx.clone(), shuffled_input_rows).await?;", replace="    if shuffled_input_rows.len() < 2 {\n        return Ok(vec![Replicated::ZERO; B]);\n    }\n    let sharded_reports = compute_prf_and_reshard(ctx.clone(), shuffled_input_rows).await?;")]),
+    dict(prop="C01", name="match-entry-arms-split", benign=True,
+         edits=[dict(file=HAF, find="            Self::Pair { .. } | Self::MoreThanTwo => *self = Self::MoreThanTwo,", replace="            Self::Pair { .. } => *self = Self::MoreThanTwo,\n            Self::MoreThanTwo => {}")]),
+]
